@@ -32,6 +32,10 @@ def toml(settings):
         for k, v in s["motion"].items():
             out.append('%s = %s' % (k, ("true" if v else "false") if isinstance(v, bool) else v))
     out += ['[device]', 'id = %d' % s.get("deviceid", 7), 'name = "%s"' % s.get("device", "dev")]
+    if s.get("location"):
+        loc = s["location"]
+        out += ['[location]', 'latitude = %s' % loc["lat"], 'longitude = %s' % loc["long"], 'altitude = %s' % loc["alt"],
+                'accuracy = %s' % loc["acc"]]
     return "\n".join(out) + "\n"
 
 
@@ -144,6 +148,9 @@ def gen_settings(rng, throttle=None):
     s = dict(min=mn, max=mx, preview=preview, const=rng.random() < 0.6, throttle=False,
              motion=motion, device=rng.choice(["dev", "trap-12", "ünï"]),
              deviceid=rng.choice([1, 7, 4242]))
+    if rng.random() < 0.6:
+        s["location"] = rng.choice([dict(lat="-43.5", long="172.5", alt="10.5", acc="3"), dict(lat="51.25", long="-0.75", alt="0", acc="12.5"),
+                                    dict(lat="-36.875", long="174.75", alt="120", acc="0")])
     if throttle:
         s["throttle"] = True
         if mn + preview == 0:
@@ -273,6 +280,11 @@ def judge_c11(ctx, runs, binp=None, second_pass=False):
                 exp = dict(device=s.get("device", "dev"), deviceid=s.get("deviceid", 7), brand="flir", model=run["model"],
                            fps=run["fps"], preview=s["preview"])
                 bad += ["header-" + k for k, v in exp.items() if hd.get(k) != v]
+                if s.get("location"):
+                    loc = s["location"]
+                    for k in ("lat", "long", "alt", "acc"):
+                        if float(hd.get(k, "nan")) != float(loc[k]):
+                            bad.append("header-" + k)
                 mo = dict(re.findall(r'^(\w+): (.*)$', hd.get("motion", ""), re.M))
                 bad += ["motion-" + k for k, v in run["expected_motion"].items() if mo.get(k) != v]
                 if not f.get("firstbg"):
@@ -380,3 +392,17 @@ def c13_runs(ctx, binp):
         runs.append(dict(kind="predict", settings=settings, fps=fps, model=model, model_events=ev, result=last, scen=scen,
                          expected_motion={}, bus=[e for e in evs if e["ev"] == "e2e-end"][-1]["bus"]))
     return runs
+
+
+def c10_startup(ctx, binp):
+    """C10 through runMain: debris of a crashed run (temp + scratch files, next to a complete recording) is in the output
+    directory when the daemon starts; before the first recording is made only the complete recording may be left."""
+    rng = ctx.rng
+    settings, fps = gen_settings(rng)
+    settings["const"] = False
+    conn, ev, fid = build_conn(rng, settings, 4, 3, fps, "lepton3", 1, 12, with_clear=False)
+    pre = ["20200101.000000.000.cptv.temp", "20200101.000000.000.cptv.temp.tmp", "20200102.010101.111.cptv.temp",
+           "20200103.020202.222.cptv.temp.tmp"]
+    evs = run_e2e(ctx, binp, dict(config=toml(settings), prefiles=pre, conns=[conn]), "c10_startup")
+    st = [e for e in evs if e["ev"] == "e2e-startup"]
+    return [dict(name=f["name"], kind=f["kind"], decodes=bool(f.get("decodes", False))) for f in (st[0]["files"] if st else [])], pre
